@@ -2,7 +2,8 @@
 (* loky's reference-counting resource tracker as seen through its pipe protocol *)
 (* and the file system (C20).  Files f1, f2; folder d containing the file g.     *)
 EXTENDS Integers, Sequences, FiniteSets, TLC, Json
-CONSTANTS Clients, MaxReq, Use    \* Use: the names requests may mention in this configuration
+CONSTANTS Clients, MaxReq, Use,   \* Use: the names requests may mention in this configuration
+          Recreate               \* TRUE: the environment may create a path again after it was deleted
 
 Files   == {"f1", "f2", "g"}          \* "g" lives inside folder "d"
 Folders == {"d", "e", "h"}            \* folder "e" lives inside folder "d"; "h" is a top-level folder
@@ -48,9 +49,15 @@ MaybeUnlink(c, x) ==
           /\ Remove({x}, "count0")                                           \* unlink / rmtree; errors swallowed
   /\ UNCHANGED <<open, alive>> /\ Log(c, "MAYBE_UNLINK", x)
 
-Garbage(c) ==           \* malformed line, unknown resource type, unknown command, non-ascii bytes
+Garbage(c) ==           \* malformed line, unknown resource type, unknown command, non-ascii bytes, empty / blank line
   /\ alive /\ c \in open /\ nreq < MaxReq
   /\ UNCHANGED <<reg, exists, open, alive, deletedBy>> /\ Log(c, "GARBAGE", "-")
+
+Create(x) ==            \* somebody (not the tracker) creates the path again: a deleted name may come back with new content
+  /\ Recreate /\ alive /\ nreq < MaxReq /\ x \notin exists /\ Inside(x) \subseteq exists
+  /\ exists' = exists \cup {x}
+  /\ deletedBy' = [y \in DOMAIN deletedBy \ {x} |-> deletedBy[y]]
+  /\ UNCHANGED <<reg, open, alive>> /\ Log(0, "CREATE", x)
 
 ClientGone(c) ==        \* exit or kill -9: the write end closes
   /\ c \in open /\ open' = open \ {c}
@@ -68,6 +75,7 @@ EOFCleanup ==           \* files first, then folders
 Next == \/ \E c \in Clients : \/ \E x \in Use : Register(c, x) \/ Unregister(c, x) \/ MaybeUnlink(c, x)
                               \/ Garbage(c) \/ ClientGone(c)
         \/ EOFCleanup
+        \/ \E x \in Use : Create(x)
 Spec == Init /\ [][Next]_vars
 
 \* --- the property
